@@ -59,7 +59,7 @@ def scenarios(tier, seed):
     # ---- family "gap": idle gaps between the beats of write bursts (short runs)
     for i, (w, p) in enumerate([(32, 32), (64, 32)] if q else [(32, 32), (64, 32), (8, 8), (32, 8), (64, 64)]):
         out.append(_sc("gap-%d-%d" % (w, p), w, p, s + 60 + i, base=BASES[i % 4], p_gap=0.5, p_burst=0.7, runs=4 if q else 10,
-                       nops=50, bound=300, lat=(3, 6)))
+                       nops=50, bound=300, lat=(3, 6), gaps=[2, 6, 12, 25, 40, 80]))
     # ---- family "up-burst": bursts through the up-converter (short runs)
     for i, (w, p) in enumerate([(8, 32), (32, 64)] if q else ups):
         out.append(_sc("up-burst-%d-%d" % (w, p), w, p, s + 70 + i, p_gap=0.0, p_burst=0.6, runs=4 if q else 10, nops=40, bound=300))
@@ -74,8 +74,8 @@ def execute(sc, workdir):
 
 
 def finding_key(entry, sc):
-    # entry = [clause, context ("plain" | "after-gap-in-write-burst"), ...]; key = clause|context|path
-    ctx = entry[1] if len(entry) > 1 and entry[1] in ("plain", "after-gap-in-write-burst") else "plain"
+    # entry = [clause, context ("plain" | "after-burst" | "after-gap-in-write-burst"), ...]; key = clause|context|path
+    ctx = entry[1] if len(entry) > 1 and entry[1] in ("plain", "after-burst", "after-gap-in-write-burst") else "plain"
     return "%s|%s|%s" % (entry[0], ctx, busmem.avl_path(sc))
 
 
